@@ -138,7 +138,12 @@ pub fn make_doc(r: &mut StdRng, k: &Knobs, id: &str, ver: u64, vocab: usize) -> 
   } else if k.multi_text && chance(r, 1, 6) {
     let n1 = r.gen_range(1..=3);
     let n2 = r.gen_range(1..=3);
-    d.insert("body".into(), json!([words(r, n1, vocab), words(r, n2, vocab)]));
+    if chance(r, 1, 3) {
+      // an empty member still separates its neighbours by a position gap
+      d.insert("body".into(), json!([words(r, n1.min(2), vocab), "", words(r, n2.min(2), vocab)]));
+    } else {
+      d.insert("body".into(), json!([words(r, n1, vocab), words(r, n2, vocab)]));
+    }
   } else if !chance(r, 1, 12) {
     let n = r.gen_range(1..=6);
     d.insert("body".into(), json!(words(r, n, vocab)));
